@@ -11,9 +11,9 @@ echo "== patch: $(wc -l < /tmp/confirm_$ID.diff) lines; files: $(git diff --name
 cmake -G Ninja -S $WT -B $WT/_build >/dev/null 2>&1 && cmake --build $WT/_build 2>&1 | tail -1 && ctest --test-dir $WT/_build -j8 2>&1 | grep -E "tests passed|tests failed"
 git status --short | grep -v demo | head -5
 ( sh demo/build.sh >/dev/null 2>&1 || bash demo/build.sh >/dev/null 2>&1 ); ./demo/demo >/tmp/confirm_$ID.with 2>&1; echo "demo WITH change: exit $?"
-git stash -q -- Compiler VM
+git checkout -- Compiler VM   # (not git stash: the stash is shared by all worktrees of a repository)
 ( sh demo/build.sh >/dev/null 2>&1 || bash demo/build.sh >/dev/null 2>&1 ); ./demo/demo >/tmp/confirm_$ID.without 2>&1; echo "demo WITHOUT change: exit $?"
-git stash pop -q
+git apply /tmp/confirm_$ID.diff
 rm -rf $WT/_build $WT/demo/demo
 mkdir -p /verif/seeded/$ID
 cp /tmp/confirm_$ID.diff /verif/seeded/$ID/patch.diff
